@@ -48,7 +48,7 @@ def m0(n, kind):
     M = np.zeros((n, n))
     for i in range(n):
         for j in range(n):
-            g = float(2 ** (i * n + j))
+            g = float(2 ** (i * n + j)) if kind in ("generic", "zerorow") else 0.0
             if kind == "generic":
                 M[i, j] = g
             elif kind == "symmetric":
@@ -207,7 +207,9 @@ def jl(conc):
 # random long histories, C->S through Merge_Trace
 # ------------------------------------------------------------------------------------------------
 
-def random_histories(ctx: Ctx, count, n, steps, rng):
+def random_histories(ctx: Ctx, count, n, steps, rng, mass=False):
+    """mass=True: deletions remove MOST of the cells at once (all but 1-5 survivors, high row numbers among them) - what the
+    combined step does with an upper energy limit on a steep landscape; the few survivors must keep ascending row order"""
     impl = Impl()
     records = []
     for tid in range(count):
@@ -221,6 +223,12 @@ def random_histories(ctx: Ctx, count, n, steps, rng):
                 k = rng.randint(0, 3)
                 arg = [rng.sample(range(n), rng.randint(1, min(4, n))) for _ in range(k)]
                 name = "Merge"
+            elif mass and rng.random() < 0.6:
+                alive = sorted(x for g in (st[1] if st[1] is not None else [[i] for i in range(n)]) for x in g)
+                keep = set(rng.sample(alive, min(len(alive), rng.randint(1, 5))))
+                arg = [x for x in alive if x not in keep] + rng.sample(range(n), rng.randint(0, 1))
+                rng.shuffle(arg)
+                name = "Delete"
             else:
                 arg = rng.sample(range(n), rng.randint(0, 2))
                 name = "Delete"
@@ -280,7 +288,9 @@ def run(ctx: Ctx):
 
     # 3. C->S: random long histories on larger n
     recs = (random_histories(ctx, 300 if thorough else 80, 9, 12, rng) + random_histories(ctx, 200 if thorough else 40, 6, 10, rng)
-            + random_histories(ctx, 200 if thorough else 60, 13, 10, rng) + random_histories(ctx, 100 if thorough else 20, 17, 8, rng))
+            + random_histories(ctx, 200 if thorough else 60, 13, 10, rng) + random_histories(ctx, 100 if thorough else 20, 17, 8, rng)
+            + random_histories(ctx, 120 if thorough else 30, 10, 4, rng, mass=True) + random_histories(ctx, 120 if thorough else 30, 21, 5, rng, mass=True)
+            + random_histories(ctx, 60 if thorough else 10, 40, 4, rng, mass=True))
     for i, r in enumerate(recs):
         r["tid"] = i
     rejects = ctx.validate("Merge_Trace", "Merge_Trace.cfg", recs, name="merge_hist")
